@@ -116,6 +116,9 @@ Theorem C14_independent_ops : forall E VS b p oB b' o evs seal2 l2, RIb b -> KU 
   RI (gh (bg b)) seal2 l2 -> (forall x, In x (seal2 :: l2) -> ~ In x (own (bg b)) /\ ~ In x (extra oB)) ->
   RI (gh (bg b')) seal2 l2 /\ absl (gh (bg b')) l2 = absl (gh (bg b)) l2.
 Proof. exact stepB_other_cache. Qed.
+Check C14_independent_ops : forall E VS b p oB b' o evs seal2 l2, RIb b -> KU b -> stepB E VS b p oB = Some (b', o, evs) ->
+  RI (gh (bg b)) seal2 l2 -> (forall x, In x (seal2 :: l2) -> ~ In x (gseal (bg b) :: glist (bg b)) /\ ~ In x (ob_addr oB :: map snd (ob_moves oB))) ->
+  RI (gh (bg b')) seal2 l2 /\ absl (gh (bg b')) l2 = absl (gh (bg b)) l2.
 (* ... and over runs of any length from any reachable state ("afterwards no operation on either cache affects the other") *)
 Theorem C14_independent_runs : forall E VS, 0 < E -> VS <= E -> forall b os b' seal2 l2, ReachB E VS b -> RunB E VS b os b' ->
   RI (gh (bg b)) seal2 l2 ->
